@@ -2128,6 +2128,8 @@ def read_lines(path_or_source, *, include=False, include_dirs=None):
 
             # modify the line by appending the size to the end (too hacky?)
             line.contents = '{} {}'.format(raw_line, size)
+            # remember where the file was found so its contents get read from there
+            line.include_path = include_path
             lines.append(line)
         else:
             lines.append(line)
@@ -2241,6 +2243,8 @@ def parse_item(line_tokens):
             raise AssemblerError('include_bytes must specify a file', line)
         _, path, size = tokens
         size = int(size, base=0)
+        # prefer the path found by the include search over the name as written
+        path = getattr(line, 'include_path', path)
         return IncludeBytes(line, path, size)
     # strings
     elif head == 'string':
